@@ -53,7 +53,7 @@ class StateVectorEvolution(MatrixData, BasisManaged):
                 # evolution operator
                 Ut = numpy.exp(-sgn*1j*HOmega*t)
                 # revert RWA
-                rhot = numpy.dot(Ut,self.data[i,:])
+                rhot = Ut*self.data[i,:]
                 self.data[i,:] = rhot
                 
         if sgn == 1:
